@@ -294,7 +294,8 @@ impl<'lifespan> PartialEq<ChemicalCompositionVec<'lifespan>> for ChemicalComposi
         if self.len() != other.len() {
             false
         } else {
-            self.iter().all(|(k, v)| other.get(k) == *v)
+            self.iter()
+                .all(|(k, v)| other.iter().any(|(k2, v2)| k2 == k && v2 == v))
         }
     }
 }
